@@ -398,6 +398,17 @@ def zero_rvs(m):
 
 def base_point(m, k):
     p = ME.sample_point(m, k)
+    # parameter values near the initial estimate (inside the bounds): bounds such as (-100, 100000) of covariate
+    # effects make uniformly sampled values numerically meaningless (x**32312 underflows in constant folding)
+    rvp = set(m.random_variables.parameter_names)
+    for i, q in enumerate(m.parameters):
+        if q.fix or q.name in rvp:
+            continue
+        init, lo, up = float(q.init), float(q.lower), float(q.upper)
+        f = ME._frac(i, k)
+        cand = init * (0.6 + 0.8 * f) if abs(init) > 1e-8 else 0.2 * (f - 0.5)
+        if lo < cand < up:
+            p.params[q.name] = cand
     z = zero_rvs(m)
     p.etas = {n: (0.0 if n in z else v) for n, v in p.etas.items()}
     p.eps = {n: (0.0 if n in z else v) for n, v in p.eps.items()}
@@ -478,10 +489,14 @@ def _show(x):
 def compare_values(a, b, varmap, core_names, rtol=RTOL):
     """a = value of M, b = value of r(M). -> None | (kind, name, observed, expected)
     kind in y / indpar / var / ode"""
+    # quantities without value in M (a symbol read before it is assigned on this path: Piecewise without matching
+    # branch) are not compared: folding nested Piecewise legitimately changes where 'no value' propagates
     for dv, v in a.y.items():
         nd = varmap.get(dv, dv)
         if nd not in b.y:
             return ('y-missing', dv, sorted(b.y), nd)
+        if v is ME.UNDEF:
+            continue
         if not _same(v, b.y[nd], rtol):
             return ('y', dv, _show(b.y[nd]), _show(v))
     oa = ME.ModelValue(rhs=a.rhs, doses=a.doses, lag=a.lag, bio=a.bio)
@@ -490,8 +505,8 @@ def compare_values(a, b, varmap, core_names, rtol=RTOL):
         return ('ode', res[0], _show(res[1]) if not isinstance(res[1], (list, str)) else res[1], _show(res[2]) if not isinstance(res[2], (list, str)) else res[2])
     for n, v in a.vars.items():
         nn = varmap.get(n, n)
-        if nn not in b.vars:
-            continue  # no longer assigned (cleanup_model removes aliases)
+        if nn not in b.vars or v is ME.UNDEF:
+            continue  # no longer assigned (cleanup_model removes aliases) / no value in M
         if not _same(v, b.vars[nn], rtol):
             return ('indpar' if n in core_names else 'var', n, _show(b.vars[nn]), _show(v))
     return None
@@ -525,10 +540,15 @@ def _r_greekify(named):
 
         m2 = greekify_model(m, named_subscripts=named)
         # rename_symbols keeps the order of parameters and random variables: positional mapping
-        if len(m2.parameters) != len(m.parameters) or len(m2.random_variables.names) != len(m.random_variables.names):
+        # (update_source of a NONMEM model without etas appends DUMMYOMEGA / eta_dummy: extra trailing entries are fine)
+        if len(m2.parameters) < len(m.parameters) or len(m2.random_variables.names) < len(m.random_variables.names):
             raise Violation('refactor:greekify:count-changed', observed=(list(m2.parameters.names), list(m2.random_variables.names)), expected=(list(m.parameters.names), list(m.random_variables.names)))
         pmap = dict(zip(m.parameters.names, m2.parameters.names))
         rvmap = dict(zip(m.random_variables.names, m2.random_variables.names))
+        for o, n in pmap.items():
+            a_, b_ = m.parameters[o], m2.parameters[n]
+            if (a_.init, a_.lower, a_.upper, a_.fix) != (b_.init, b_.lower, b_.upper, b_.fix):
+                raise Reject('greekify: parameter correspondence cannot be derived positionally')
         # documented naming: theta_<i> / eta_<i> / epsilon_<i> (integer subscripts) or previous name as subscript
         for i, th in enumerate(_thetas(m), start=1):
             exp = f'theta_{th}' if named else f'theta_{i}'
@@ -730,6 +750,34 @@ def has_fixed_rv_param(m, after_non_random=False):
     return False
 
 
+def mu_condition(m, already_mu, for_crash=False):
+    """shape of the model that matters for mu_reference_model (condition-first clause ids)"""
+    import sympy
+    from pharmpy.model import Assignment
+
+    if already_mu:
+        return 'already-mu-referenced:'
+    etas = set(m.random_variables.etas.names)
+    epss = set(m.random_variables.epsilons.names)
+    with_eps = in_pw = False
+    for s in m.statements.before_odes:
+        if not isinstance(s, Assignment):
+            continue
+        fs = {str(x) for x in s.expression.free_symbols}
+        if fs & etas:
+            if fs & epss:
+                with_eps = True
+            if s.expression._sympy_().has(sympy.Piecewise):
+                in_pw = True
+    # a crash is attributed to the Piecewise shape first, a value difference to the eta-on-residual-error shape first
+    order = ('eta-in-piecewise:', 'eta-with-epsilon:') if for_crash else ('eta-with-epsilon:', 'eta-in-piecewise:')
+    flags = {'eta-in-piecewise:': in_pw, 'eta-with-epsilon:': with_eps}
+    for c in order:
+        if flags[c]:
+            return c
+    return ''
+
+
 def check_consistency(rname, m2):
     """r(M) must still be a model whose random variables refer to existing parameters"""
     pn = set(m2.parameters.names)
@@ -754,6 +802,12 @@ def run_refactor(spec):
     already_mu = any(re.fullmatch(r'mu_\d+', n) for n in assigned_names(m))
     if already_mu:
         classes.append('M:already-mu-referenced')
+    mu_cond = ''
+    if rname == 'mu_reference_model':
+        mu_cond = mu_condition(m, already_mu)
+        mu_cond_crash = mu_condition(m, already_mu, for_crash=True)
+        if mu_cond:
+            classes.append('M:' + mu_cond.rstrip(':'))
 
     fixed_rv = rname in ('replace_fixed_thetas', 'cleanup_model') and has_fixed_rv_param(m, after_non_random=(rname == 'cleanup_model'))
     if fixed_rv:
@@ -763,6 +817,8 @@ def run_refactor(spec):
         m2 = ref.model
         check_consistency(rname, m2)
     except Violation as v:
+        if mu_cond and ':crash:' in v.clause:
+            raise Violation(f'refactor:{rname}:{mu_cond_crash}' + v.clause[len(f'refactor:{rname}:'):], observed=v.observed, expected=v.expected, detail=v.detail)
         if fixed_rv and v.clause.startswith(f'refactor:{rname}:') and (':crash:' in v.clause or 'rv-parameter-missing' in v.clause):
             raise Violation(f'refactor:{rname}:fixed-rv-parameter:' + v.clause[len(f'refactor:{rname}:'):], observed=v.observed, expected=v.expected, detail=v.detail)
         raise
@@ -803,7 +859,7 @@ def run_refactor(spec):
             if not stable_at(m, p, va):
                 continue
             kind, name, obs, exp = res
-            cond = 'already-mu-referenced:' if rname == 'mu_reference_model' and already_mu else ''
+            cond = mu_cond
             raise Violation(
                 f'refactor:{rname}:{cond}{kind}',
                 observed=obs,
@@ -1138,6 +1194,19 @@ def _pheno_linear():
     return _CACHE['pheno_linear']
 
 
+def _sym(e):
+    """pharmpy Expr -> sympy; expressions with a Piecewise inside a condition (symengine keeps them, sympy refuses to
+    build the ITE) cannot be evaluated by the reference evaluator: outside the checkable domain"""
+    import sympy
+
+    if isinstance(e, sympy.Basic):
+        return e
+    try:
+        return e._sympy_()
+    except Exception as x:  # noqa
+        raise Reject(f'expression not convertible to sympy: {type(x).__name__}')
+
+
 def seq_y(m, p, dvname):
     v = ME.evaluate(m, p)
     return v.vars.get(dvname, ME.UNDEF), v
@@ -1244,7 +1313,8 @@ def run_evaluators(spec):
     ccond = 'loggamma:' if has_lg else ''
     evals = 0
     inputs = set(m.parameters.names) | set(rvs.names) | set(m.datainfo.names) | {'t'}
-    doc = (ValueError, NotImplementedError)
+    # symengine signals an undefined value (division by zero at eta=0, Piecewise without matching branch) by RuntimeError
+    doc = (ValueError, NotImplementedError, RuntimeError)
 
     def sym_check(e, label):
         extra = sorted({str(x) for x in e.free_symbols} - inputs)
@@ -1288,7 +1358,7 @@ def run_evaluators(spec):
                 skip = True
                 break
             try:
-                got = ev(e, ME.base_env(m, q))
+                got = ev(_sym(e), ME.base_env(m, q))
             except Undefined:
                 got = ME.UNDEF
             if not _same(y, got):
@@ -1317,7 +1387,7 @@ def run_evaluators(spec):
                     continue
                 g, noise = fd
                 try:
-                    an = ev(ge, ME.base_env(m, base))
+                    an = ev(_sym(ge), ME.base_env(m, base))
                 except Undefined as u:
                     raise Violation(f'calculate_{"eta" if which == "eta" else "epsilon"}_gradient_expression:undefined', detail=f'{ge}: {u}')
                 if not math.isfinite(an) or abs(an - g) > 1e-5 * max(abs(an), abs(g)) + 10 * noise / 1e-6 * 1e-6 + 1e-7:
@@ -1363,7 +1433,7 @@ def run_evaluators(spec):
         def compare_series(label, series, with_etas):
             nonlocal evals
             if len(series) != nrow:
-                raise Violation(f'{label}:length', observed=len(series), expected=nrow)
+                raise Violation(f'length:{label}', observed=len(series), expected=nrow, detail=f'{label} returned {len(series)} value(s) for {nrow} data records\n{stmts_key(m)}')
             for r in range(nrow):
                 q = row_point(r, with_etas)
                 y, v = seq_y(m, q, dvname)
@@ -1461,7 +1531,7 @@ def run_evaluators(spec):
             env.update({k: x for k, x in v.vars.items() if x is not ME.UNDEF})
             try:
                 a = ev(s.expression, env)
-                b = ev(simp, env)
+                b = ev(_sym(simp), env)
             except Undefined:
                 continue
             if not math.isfinite(a):
@@ -1517,12 +1587,12 @@ def selfcheck():
         raise HarnessError('model differs from itself')
     sts = list(m.statements)
     i = next(j for j, s in enumerate(sts) if isinstance(s, Assignment) and str(s.symbol) == 'CL')
-    sts[i] = Assignment.create(sts[i].symbol, sts[i].expression * Expr.float(1.0000001))
+    sts[i] = Assignment.create(sts[i].symbol, sts[i].expression * Expr.float(1.0001))
     from pharmpy.model import Statements
 
     m2 = m.replace(statements=Statements(sts))
     if compare_values(va, ME.evaluate(m2, p), {}, set()) is None:
-        raise HarnessError('1e-7 relative change of CL not seen by the comparison')
+        raise HarnessError('1e-4 relative change of CL not seen by the comparison')
     lin = _pheno_linear()
     q = base_point(lin, 0)
     dvn = str(list(lin.dependent_variables.keys())[0])
